@@ -628,7 +628,7 @@ impl PartialEq<Self> for XType {
                     && a.params
                         .iter()
                         .zip(b.params.iter())
-                        .all(|(a, b)| a.type_.eq(&b.type_))
+                        .all(|(a, b)| a.required == b.required && a.type_.eq(&b.type_))
                     && a.ret.eq(&b.ret)
             }
             (Self::XCallable(ref a), Self::XFunc(ref b)) => {
